@@ -256,10 +256,123 @@ def c19(run):
     wrapper_pipeline(run, "C19", names, [], {"gate", "starved", "lostwake"}, random_n=4000 if th else 800, extra_invs=LIVE)
 
 
+# ------------------------------------------------------------------ DefaultLimiter (C09 C05, parts of C02 C20)
+def limiter_cfg(strat, thr, script, maxsamp, maxage, emit=True):
+    return ("CONSTANTS Strat = \"%s\" WSize = 10 MinW = 1 MaxW = 2 Threshold = %d Est0 = 2 ScriptName = \"%s\" MaxAge = %d "
+            "MaxCount = 11 MaxSamp = %d Emit = %s\nINIT Init\nNEXT Next\nINVARIANTS InvC InvE InvW\nCHECK_DEADLOCK FALSE\n") % (
+                strat, thr, script, maxage, maxsamp, "TRUE" if emit else "FALSE")
+
+
+def det_reject_report(run, prop, rejects, tp, what, classify):
+    rows = None
+    for rj in rejects:
+        if rows is None:
+            rows = vlib.read_ndjson(tp)
+        tr = [x for x in rows if x["trace"] == rj["trace"]]
+        n = sum(1 for x in rows[: rj["line"]] if x["trace"] == rj["trace"])
+        upto = tr[:n]
+        sig = classify(rj, upto)
+        if sig is None:
+            continue
+        run.report("%s: recorded history %d rejected at its step %d (%s): the contract fixes %s, the code did %s" % (
+            what, rj["trace"], n - 1, rj["why"], json.dumps(rj["expected"])[:400], json.dumps(rj["logged"])[:400]),
+            {"trace": upto, "reject": rj, "rerun": "VERIF_SEED=%d bin/check %s --tier %s" % (run.seed, prop, run.tier)}, sig)
+
+
+def limiter_pipeline(run, prop, classify_mismatch, classify_reject, graphs=True):
+    th = run.tier == "thorough"
+    indir = os.path.join(run.scratch, "in")
+    os.makedirs(indir, exist_ok=True)
+    cfgs = {"simple_t1": ("simple", 1, "a", 2 if th else 1, 2), "precise_t0": ("precise", 0, "b", 2 if th else 1, 1)}
+    if not graphs:
+        cfgs = {}
+    for name, (strat, thr, script, ms, ma) in cfgs.items():
+        r = run.tlc("LimiterMC", name + ".cfg", cfg_text=limiter_cfg(strat, thr, script, ms, ma), label="mc+gen:Limiter/" + name)
+        if r.error or not r.ok:
+            raise Machinery("TLC %s: %s %s\n%s" % (r.label, r.error, r.violation, r.raw[-3000:]))
+        run.states += r.distinct
+        run.transitions += r.generated
+        n = emit_graph(run, r, os.path.join(indir, "limiter_%s.ndjson" % name))
+        if n != r.generated - 1:
+            raise Machinery("TLC %s printed %d transitions but generated %d states" % (r.label, n, r.generated))
+    exhaustive = True
+    reps = []
+    if graphs:
+        out, _ = run.go("^TestLimiterReplay$", env={"VERIF_IN": indir}, timeout=1200)
+        reps = json.load(open(os.path.join(out, "limiter_replay.json")))
+    for rep in reps:
+        label = "Limiter/" + os.path.basename(rep["file"])
+        for m in graph_report(run, prop, rep, label):
+            sig = classify_mismatch(m)
+            if sig is None:
+                continue
+            run.report("DefaultLimiter: after %s (path of %d calls) the real limiter returned %s / state %s, the contract fixes %s / %s" % (
+                json.dumps(m["op"]), len(m["path"] or []), m["got_res"], m["got_obs"], m["exp_res"], m["exp_obs"]),
+                {"graph": label, "mismatch": m, "rerun": "bin/check %s" % prop}, sig)
+        exhaustive = exhaustive and rep["edges_unreachable"] == 0
+    run.exhaustive = exhaustive
+    n = 1500 if th else 150
+    out, _ = run.go("^TestLimiterRandom$", env={"VERIF_N": n})
+    tp = os.path.join(out, "limiter_trace.ndjson")
+    rows = vlib.read_ndjson(tp)
+    closes = sum(1 for x in rows if x["ev"] == "Op" and x["res"].get("samples"))
+    drops = sum(1 for x in rows if x["ev"] == "Op" and any(sm.get("drop") for sm in x["res"].get("samples") or []))
+    if closes < 10 or drops < 1:
+        raise Machinery("random limiter histories are vacuous: %d window closings, %d with a drop" % (closes, drops))
+    run.extra["random_histories"] = {"histories": n, "calls": len(rows) - n, "windows_closed": closes, "closed_with_drop": drops}
+    rejects, total = validate_sharded(run, "LimiterTrace", "Limiter_trace.cfg", tp)
+    run.traces += n
+    run.events += total
+    run.sample({"recorded_history_excerpt": rows[:3]})
+    det_reject_report(run, prop, rejects, tp, "DefaultLimiter", classify_reject)
+    run.assumptions += [
+        "sequential histories (C09 and C05 quantify over histories; concurrent completions racing for an update are explored by C01/C02's machinery)",
+        "exhaustive part: window size 10 (the code's minimum), limit trajectory of the scripted algorithm, ages <= 2 ticks, one or two window closings",
+        "virtual clock of testing/synctest makes every RTT exact",
+    ]
+
+
+def _res_field_differs(m, field):
+    try:
+        a, b = json.loads(m["exp_res"] or "{}"), json.loads(m["got_res"] or "{}")
+        return a.get(field) != b.get(field)
+    except Exception:
+        return True
+
+
+def c09(run):
+    # every mismatch of the Limiter contract is about the window / the samples handed to the algorithm
+    limiter_pipeline(run, "C09", lambda m: {"kind": "default", "what": "samples" if _res_field_differs(m, "samples") else "state"},
+                     lambda rj, tr: {"kind": "default", "why": rj["why"]})
+
+
+def c05(run):
+    def mm(m):
+        try:
+            a, b = json.loads(m["exp_obs"] or "{}"), json.loads(m["got_obs"] or "{}")
+        except Exception:
+            return {"kind": "default"}
+        if a.get("limit") != b.get("limit") or a.get("bl") != b.get("bl") or a.get("est") != b.get("est"):
+            return {"kind": "default", "what": "enforced limit"}
+        return None
+
+    def rj(r, tr):
+        e, g = r.get("expected") or {}, r.get("logged") or {}
+        ep, gp = (e.get("post") or e), (g.get("post") or g)
+        if isinstance(ep, dict) and isinstance(gp, dict) and (ep.get("limit") != gp.get("limit") or ep.get("bl") != gp.get("bl")):
+            return {"kind": "default", "what": "enforced limit"}
+        return None
+    limiter_pipeline(run, "C05", mm, rj)
+    # the partition share half: exhaustive graph of the Partition contract (SetLimit / add / remove)
+    partition_pipeline(run, "C05", lambda kind, m: {"kind": kind, "what": "share"}, only_limits=True)
+
+
 # ------------------------------------------------------------------------------ C03
-def partition_pipeline(run, prop, classify):
+def partition_pipeline(run, prop, classify, only_limits=False, graphs=True):
     """Shared by C03 (admission/bins) - the same machinery also yields the share observations of C05."""
     th = run.tier == "thorough"
+    if not graphs:
+        return partition_random(run, prop, classify, only_limits)
     # 1. design level: the contract's consequences in every reachable state (small constants)
     suffix = "_th" if th else ""
     for kind in ("lookup", "predicate"):
@@ -279,12 +392,24 @@ def partition_pipeline(run, prop, classify):
     for kind in ("lookup", "predicate"):
         rep = json.load(open(os.path.join(out, "replay_%s.json" % kind)))
         for m in graph_report(run, prop, rep, "Partition/" + kind):
+            if only_limits:
+                try:
+                    a, b = json.loads(m["exp_obs"] or "{}"), json.loads(m["got_obs"] or "{}")
+                    if a.get("limit") == b.get("limit") and a.get("bl") == b.get("bl") and a.get("ul") == b.get("ul"):
+                        continue
+                except Exception:
+                    pass
             sig = classify(kind, m)
             run.report("%s strategy: after %s the real strategy returned %s / state %s, the contract fixes %s / %s" % (
                 kind, json.dumps(m["op"]), m["got_res"], m["got_obs"], m["exp_res"], m["exp_obs"]),
                 {"kind": kind, "mismatch": m, "rerun": "bin/check %s" % prop}, sig)
         exhaustive = exhaustive and rep["edges_unreachable"] == 0
     run.exhaustive = exhaustive
+    partition_random(run, prop, classify, only_limits)
+
+
+def partition_random(run, prop, classify, only_limits=False):
+    th = run.tier == "thorough"
     # 3. code -> model: random long histories with large limits, dyadic fractions, dynamic partitions
     n = 2000 if th else 200
     out, _ = run.go("^TestPartitionRandom$", env={"VERIF_N": n})
@@ -296,6 +421,11 @@ def partition_pipeline(run, prop, classify):
     run.events += len(rows)
     run.sample({"trace_excerpt": rows[:4]})
     for rj in rejects:
+        if only_limits:
+            e, g = rj.get("expected") or {}, rj.get("logged") or {}
+            ep, gp = (e.get("post") or e), (g.get("post") or g)
+            if isinstance(ep, dict) and isinstance(gp, dict) and ep.get("limit") == gp.get("limit") and ep.get("bl") == gp.get("bl") and ep.get("ul") == gp.get("ul"):
+                continue
         tr = [x for x in rows if x["trace"] == rj["trace"]]
         upto = [x for x in tr][: 1 + sum(1 for x in rows[: rj["line"]] if x["trace"] == rj["trace"])]
         sig = classify(upto[0]["cfg"]["kind"], {"op": rj.get("op"), "exp_res": json.dumps(rj["expected"].get("res")) if isinstance(rj["expected"], dict) else "", "trace": True, "why": rj["why"]})
@@ -315,8 +445,105 @@ def c03(run):
     partition_pipeline(run, "C03", classify)
 
 
+# ------------------------------------------------------------------------------ C01
+def conc_cfg(direct, ll, sl):
+    return ('CONSTANTS P = {"p1", "p2", "p3"} Limits = {0, 1, 2, 3} Limit0 = 1 Direct = %s LimiterLock = %s StrategyLock = %s Rounds = 2\n'
+            'SPECIFICATION Spec\nINVARIANTS NeverOver RefusedAtLimit NonNegative\nPROPERTY GrantHadRoom\nCHECK_DEADLOCK FALSE\n') % (direct, ll, sl)
+
+
+def gate_stress(run, prop, n):
+    """Free-running goroutines on real limiters; TLC searches each recorded history for a linearisation."""
+    out, _ = run.go("^TestGateStress$", env={"VERIF_N": n}, timeout=900)
+    tp = os.path.join(out, "gate_trace.ndjson")
+    rows = vlib.read_ndjson(tp)
+    stats = {"histories": n, "events": len(rows), "acquires": 0, "refusals": 0, "completions": 0, "limit_changes": 0}
+    for x in rows:
+        if x["t"] == "b":
+            stats[{"acq": "acquires", "rel": "completions", "set": "limit_changes"}[x["kind"]]] += 1
+        if x["t"] == "e" and not x["ok"]:
+            stats["refusals"] += 1
+    run.extra["stress"] = stats
+    if stats["refusals"] == 0 or stats["limit_changes"] == 0:
+        raise Machinery("stress histories are vacuous: %s" % stats)
+    run.sample({"stress_history_excerpt": rows[:6]})
+    remaining = rows
+    for attempt in range(6):
+        path = os.path.join(out, "gate_%d.ndjson" % attempt)
+        vlib.write_ndjson(path, remaining)
+        r = run.tlc("GateTrace", "Gate_trace.cfg", workers=1, env={"VERIF_TRACE": path}, label="val:GateTrace[%d lines]" % len(remaining),
+                    jvm="-Xmx6g", timeout=1200)
+        if r.error or r.violation not in (None, "invariant NeverOver"):
+            raise Machinery("GateTrace failed to run: %s %s\n%s" % (r.error, r.violation, r.raw[-3000:]))
+        marks = [int(x) for x in r.prints.get("MARK", [])]
+        mark = max(marks) if marks else 0
+        run.events += mark
+        if r.ok and mark == len(remaining):
+            run.traces += len([x for x in remaining if x["t"] == "reset"])
+            return
+        # the history containing line mark+1 has no linearisation (or violates NeverOver)
+        bad = remaining[min(mark, len(remaining) - 1)]["trace"]
+        hist = [x for x in remaining if x["trace"] == bad]
+        kind = hist[0].get("kind")
+        run.report("%s: recorded concurrent history %d is not linearisable as an atomic gate (TLC consumed %d of its events%s)" % (
+            kind, bad, sum(1 for x in remaining[:mark] if x["trace"] == bad), ", NeverOver violated" if r.violation else ""),
+            {"history": hist, "rerun": "VERIF_SEED=%d bin/check %s --tier %s" % (run.seed, prop, run.tier)}, {"class": "gate", "kind": kind})
+        remaining = [x for x in remaining if x["trace"] != bad]
+    raise Machinery("more than 6 non-linearisable histories; giving up")
+
+
+def c01(run):
+    th = run.tier == "thorough"
+    for name, c in {"simple": ("FALSE", "TRUE", "FALSE"), "precise": ("FALSE", "TRUE", "TRUE"), "precise-direct": ("TRUE", "TRUE", "TRUE")}.items():
+        run.mc("DefaultLimiterConc", name + ".cfg", cfg_text=conc_cfg(*c), label="mc:DefaultLimiterConc/" + name)
+    run.neg("DefaultLimiterConc", "neg1.cfg", cfg_text=conc_cfg("FALSE", "FALSE", "FALSE"), label="neg:limiter-lock-removed")
+    run.neg("DefaultLimiterConc", "neg2.cfg", cfg_text=conc_cfg("TRUE", "TRUE", "FALSE"), label="neg:precise-mutex-removed")
+    # attack schedule of the weakened model, realised in real time on the real code
+    all_rejects = []
+    out, _ = run.go("^TestGateAttack$", timeout=300)
+    att = json.load(open(os.path.join(out, "attack.json")))
+    run.extra["attack"] = att
+    tp = os.path.join(out, "attack_trace.ndjson")
+    rejects, total = validate_sharded(run, "WrapperTrace", "Wrapper_trace.cfg", tp)
+    run.events += total
+    run.traces += att["scenarios"]
+    handle_rejects(run, "C01", rejects, tp, {"gate", "early", "conserve"}, "attack", all_rejects)
+    # gate-serialised schedules of wrappers over the real DefaultLimiter (every delegate attempt checked)
+    wrapper_pipeline(run, "C01", ["b3l2", "q2"] + (["q3", "b4", "q4t"] if th else []), [], {"gate"}, random_n=1500 if th else 200)
+    # free-running concurrency, linearisability
+    gate_stress(run, "C01", 1500 if th else 150)
+    run.assumptions += ["the bounded real-time wait of the attack executor (30 ms quick, 200 ms thorough) can only miss a detection on an overloaded machine, never raise an alarm",
+                        "stress histories depend on the Go scheduler; they are a sample, the attack schedule is deterministic"]
+
+
+def c02(run):
+    th = run.tier == "thorough"
+    wrapper_pipeline(run, "C02", ["b3l2", "q3s", "d2", "b2c"] + (["q3", "q3l", "q4t", "b3p", "d3"] if th else []), [], {"conserve"}, random_n=2000 if th else 300)
+
+    def lim_mm(m):
+        return {"kind": "default", "what": "counts"}
+
+    def lim_rj(r, tr):
+        e, g = r.get("expected") or {}, r.get("logged") or {}
+        ep, gp = (e.get("post") or e), (g.get("post") or g)
+        if isinstance(ep, dict) and isinstance(gp, dict) and (ep.get("gauge") != gp.get("gauge") or ep.get("busy") != gp.get("busy")):
+            return {"kind": "default", "what": "counts"}
+        er, gr = e.get("res") or {}, g.get("res") or {}
+        if isinstance(er, dict) and isinstance(gr, dict) and er.get("ok") != gr.get("ok"):
+            return {"kind": "default", "what": "grant"}
+        return None
+    limiter_pipeline(run, "C02", lim_mm, lim_rj, graphs=th)
+
+    def part_cl(kind, m):
+        return {"kind": kind, "what": "bins"}
+    partition_pipeline(run, "C02", part_cl, graphs=th)
+
+
 CHECKS = {
+    "C01": c01,
+    "C02": c02,
     "C03": c03,
+    "C05": c05,
+    "C09": c09,
     "C10": c10,
     "C11": c11,
     "C12": c12,
